@@ -1014,11 +1014,11 @@ func c04Plans() []plan {
 	}
 	// a second (empty) attack started on the same Attacker while the first one runs: each attack's elapsed
 	// time is measured from its own start
-	for _, p := range []params{
+	for i, p := range []params{
 		{W0: 1, M: 1, N: 2, Cause: "pacer", Mode: vsched.ClockTicking, Second: true},
 		{W0: 1, M: 1, N: 3, Cause: "duration", Du: 9, Mode: vsched.ClockTicking, Second: true},
 	} {
-		ps = append(ps, plan{p, vsched.Config{Bound: ev.Pick(2, 3), Cache: true, Deadline: dl, Iterate: true}})
+		ps = append(ps, plan{p, vsched.Config{Bound: ev.Pick(2-i, 3), Cache: true, Deadline: dl, Iterate: true}})
 	}
 	return ps
 }
